@@ -119,6 +119,21 @@ def run(ctx):
                                       "args": [name, v, et.name], "python": o})
                     lines.append(f"idx_entity {name} {v} {et.name}")
                     meta.append(("near", (name, v, et.name), o))
+    # lookups by API key with an entity type that is not request/response must not resolve
+    for k in keys:
+        name = api_key_map[k]
+        vs = sorted(schema_name_map[name])
+        for v in {vs[0], vs[-1], rng.choice(vs)}:
+            for et in EntityType:
+                if et in schema_name_map[name][v]:
+                    continue
+                o, r = outcome(kidx.load_payload_module, k, v, et)
+                n += 1
+                if o != "err unknownEntity":
+                    fails.append({"what": "load_payload_module resolves an entity type the API version does not have",
+                                  "args": [k, v, et.name], "python": o if o != "ok" else getattr(r, "__name__", str(r))})
+                lines.append(f"idx_payload {k} {v} {et.name}")
+                meta.append(("near", (k, v, et.name), o))
     for _ in range(200):
         nm = "".join(rng.choice("abcdefghijklmnopqrstuvwxyz_") for _ in range(rng.randint(1, 12)))
         o, _ = outcome(kidx.load_entity_schema, nm, rng.randint(-3, 20), EntityType.request)
@@ -142,7 +157,7 @@ def run(ctx):
         "samples": walked[:3],
     })
     for f in fails[:3]:
-        ctx.violation(f["what"], dict(kind="c09", **f))
+        ctx.violation(f["what"], {**f, "check": "c09"})
     if disagreements and not fails:
         ctx.broken.append(f"index model disagrees with kio.index: {disagreements[0]}")
 
